@@ -206,7 +206,7 @@ Plan generate_plan(const std::string &lane, uint64_t seed, int tier) {
         s.nops = r.range(6, tier ? 60 : 30);
         for (int i = 0; i < s.nops; i++) {
             Op op = mk(OP_xp);
-            static const int acts_ids[] = {0, 1, 2, 3, 3, 3, 3, 4, 5, 3};
+            static const int acts_ids[] = {0, 1, 2, 3, 3, 3, 9, 4, 5, 3};
             static const int acts_kill[] = {0, 1, 3, 3, 3, 6, 6, 4, 3, 2};
             op.a[1] = lane == "ids" ? acts_ids[r.below(10)] : acts_kill[r.below(10)];
             if (i < 3) op.a[1] = r.chance(1, 3) ? 1 : 0;   // start by opening files
